@@ -316,6 +316,12 @@ func (c *ctx) wild(thorough bool) {
 	if thorough {
 		n = 150000
 	}
+	if c.p.dialect != "sqlite" {
+		n = n * 5 / 8
+	}
+	if c.p.scoped {
+		n /= 4
+	}
 	for k := 0; k < n; k++ {
 		var from, to Schema
 		from.Name, to.Name = "main", "main"
